@@ -72,7 +72,7 @@ func fieldLoadOf(v ssa.Value, field string) (base ssa.Value, ok bool) {
 		return nil, false
 	}
 	st, isS := deref(fa.X.Type()).Underlying().(*types.Struct)
-	if !isS || st.Field(fa.Field).Name() != field {
+	if !isS || st == nil || canonFieldName(fa.X.Type(), fa.Field) != field {
 		return nil, false
 	}
 	return fa.X, true
@@ -290,7 +290,8 @@ func checkC07(P *Program, r *Result, tier string) {
 					if !ok {
 						continue
 					}
-					switch st2.Field(f2.Field).Name() {
+					_ = st2
+					switch canonFieldName(f2.X.Type(), f2.Field) {
 					case "off":
 						if l := builtinCall(s2.Val, "len"); l != nil && isLoadOfField(fn, l.Common().Args[0], "data") && instrDominates(s2, st) {
 							// same version of data as the append's base
